@@ -15,6 +15,7 @@
      C06_quad_closed_form (they are the closed forms) + C06_*_is_optimum, C06_*_unique
    * "pixels flagged invalid are left untouched"                 : C06_pixel_invalid_untouched
    * "left where it was, with bit 3 raised, exactly when ..."    : C06_pixel_bit3_iff
+   * "stays inside the PIXEL's interval" (per-pixel grids, sample received): C06_pixel_moved_costed
    * "no other bit changes"                                      : C06_pixel_other_bits (any input),
      C06_steps_total_and_flags (any number of steps)
    * "the step is total"                                         : C06_vfit_total, C06_quad_total,
@@ -185,6 +186,21 @@ Section Pixel.
     exact (bits_of_step K C06_consts_wf mask mask' (pixel_bits K C06_consts_wf me m dmin dmax s _ _ _ _ _ _ H)).
   Qed.
 
+  (* a pixel that moves: its sample is an extremum of two NUMERIC neighbouring costs, there is a whole
+     sample on each side, its mask is unchanged.  With per-pixel disparity grids the costs outside a
+     pixel's own interval are NaN (C02/C09): for a received disparity that is a sample, the refined one
+     therefore lies between two samples of the pixel's own interval. *)
+  Theorem C06_pixel_moved_costed : forall cv d mask d' c' mask',
+    valid mask -> fits cv -> inside d ->
+    step cv (Some d) mask = POk (Some d') c' mask' -> ~ d' == d ->
+    exists c0 c1 c2, cost_at cv (sample_index dmin s d - 1) = Some c0
+                     /\ cost_at cv (sample_index dmin s d) = Some c1
+                     /\ cost_at cv (sample_index dmin s d + 1) = Some c2
+                     /\ is_extremum (kind_of m) c0 c1 c2
+                     /\ ~ near_end dmin dmax s d
+                     /\ mask' = mask.
+  Proof. exact (pixel_moved_costed K C06_consts_wf me m dmin dmax s Hs). Qed.
+
   (* on the sampling grid the end test is the one the property names: the sample IS an end *)
   Theorem C06_near_end_on_grid : forall k, inject_Z k == (dmax - dmin) * inject_Z s ->
     forall i, (0 <= i <= k)%Z ->
@@ -252,5 +268,6 @@ Print Assumptions C06_pixel_props.
 Print Assumptions C06_pixel_total.
 Print Assumptions C06_pixel_bit3_iff.
 Print Assumptions C06_pixel_other_bits.
+Print Assumptions C06_pixel_moved_costed.
 Print Assumptions C06_near_end_on_grid.
 Print Assumptions C06_steps_total_and_flags.
